@@ -398,7 +398,7 @@ func (c *c23model) drain() {
 
 // VerifC23History: every history of add / remove / expire / pop.
 func VerifC23History() {
-	maxOps := verifParam("maxOps", 4, 6)
+	maxOps := verifParam("maxOps", 4, 5)
 	c := c23new(verifParam("items", 3, 4), verifParam("limitConfigs", 4, 5))
 	n := 1 + verifChoose("n", maxOps)
 	for step := 0; step < n; step++ {
@@ -425,7 +425,7 @@ var c23streamCfg = [6][3]int{{2, 2, 1}, {2, 2, 2}, {1, 1, 1}, {3, 2, 2}, {2, 1, 
 // new start) interleaved with add / expire (quick) and remove / pop (thorough) from other callers, following the
 // builder's protocol; finally the stream is finished and everything is popped.
 func VerifC23Stream() {
-	maxOps := verifParam("maxOps", 3, 5)
+	maxOps := verifParam("maxOps", 3, 4)
 	nitems := verifParam("items", 3, 4)
 	nops := verifParam("streamOps", 5, 7)
 	c := &c23model{ctx: context.Background(), nitems: nitems}
